@@ -29,6 +29,7 @@ type Obligation struct {
 	Model   string
 	gen     *FnGen
 	Bounded bool
+	SrcLine string
 	Tags    map[int]bool // blocks whose lines are relevant (ancestors of the obligation's block); nil = all
 }
 
@@ -182,6 +183,7 @@ func (g *FnGen) oblige(kind, label string, props []string, reach, goal, src stri
 	}
 	o := &Obligation{Name: name, Fn: g.key, Kind: kind, Label: label, Props: props, NLines: len(g.lines), Reach: reach, Goal: goal, Pos: posOf(g.w, pos), Src: src, gen: g}
 	o.Tags = g.relevantTags()
+	o.SrcLine = g.w.srcLine(pos)
 	g.obls = append(g.obls, o)
 	return o
 }
@@ -1722,4 +1724,27 @@ func (g *FnGen) heapClosed(st *State, key string) {
 		ss := g.w.sortOf(u)
 		g.emit(fmt.Sprintf("(assert (forall ((r Int)) (! (and (<= 0 (arr_%s (select %s r))) (<= (arr_%s (select %s r)) %s) (<= 0 (len_%s (select %s r))) (<= 0 (off_%s (select %s r)))) :pattern ((select %s r)))))", ss, h, ss, h, a, ss, h, ss, h, h))
 	}
+}
+
+// Key identifies an obligation in the unclaimed / known-findings files. Clause obligations are keyed by their
+// label; zero-annotation obligations (safe.*, range.*, lock.*, frame.global) by kind and the text of the source
+// line, so that edits elsewhere in the file do not rename them.
+func (o *Obligation) Key() string {
+	if strings.HasPrefix(o.Kind, "safe.") || strings.HasPrefix(o.Kind, "range.") || strings.HasPrefix(o.Kind, "lock.") || strings.HasPrefix(o.Kind, "frame.global") {
+		return o.Fn + "/" + o.Kind + "@" + o.SrcLine
+	}
+	if o.Kind == "pre" {
+		// call-site preconditions: callee and label, plus the source line of the call
+		lab := o.Label
+		if i := strings.Index(lab, "#"); i >= 0 {
+			rest := lab[i+1:]
+			if j := strings.Index(rest, "."); j >= 0 {
+				lab = lab[:i] + rest[j:]
+			} else {
+				lab = lab[:i]
+			}
+		}
+		return o.Fn + "/pre." + lab + "@" + o.SrcLine
+	}
+	return o.Name
 }
